@@ -49,7 +49,11 @@ def _ops():
     )
     present = st.builds(lambda n: f"{n};255;0;0;17;2.0\n", st.one_of(st.integers(0, 255), st.sampled_from((250, 253, 254, 255))))
     install = st.one_of(st.integers(1, 254), st.sampled_from((2, 3, 5, 200, 253, 254))).map(lambda i: ["install", i])
-    return st.lists(gen.weighted((6, request.map(lambda l: ["rx", l])), (2, present.map(lambda l: ["rx", l])), (1, install), (1, st.sampled_from((["save"], ["save"], ["reload"])))), min_size=3, max_size=20)
+    # traffic of nodes the registry does not know (2.x remembers having asked them to present themselves), time passing
+    stranger = st.builds(lambda n, l: ["rx", l.format(n)], st.one_of(st.sampled_from((1, 2, 250, 252, 253, 254, 255)), st.integers(0, 255)),
+                         st.sampled_from(("{};1;0;0;6;child\n", "{};1;1;0;0;5\n", "{};255;3;0;0;50\n", "{};1;2;0;0;\n")))
+    tick = st.sampled_from((1, 599, 601, 3600, 86400, 10**7)).map(lambda t: ["tick", t])
+    return st.lists(gen.weighted((6, request.map(lambda l: ["rx", l])), (2, present.map(lambda l: ["rx", l])), (1, install), (1, st.sampled_from((["save"], ["save"], ["reload"]))), (2, stranger), (1, tick)), min_size=3, max_size=20)
 
 
 def strategy(tier: str):
@@ -80,6 +84,17 @@ def enumerate_cases(tier: str):
             for between in (["save"], ["reload"], ["save"], ["save"]):
                 ops = [["rx", "255;255;3;0;3;\n"], between, ["rx", "255;255;3;0;3;\n"], ["save"], ["reload"], ["rx", "255;255;3;0;3;\n"], ["rx", "9;255;0;0;17;2.0\n"], ["save"], ["rx", "255;255;3;0;3;\n"]]
                 yield {"version": version, "ids": ids, "install": "direct", "ops": ops, "listen_mode": "persistent"}
+    # unknown nodes talking on the ids just above the registry's maximum (2.x asks them to present themselves), then requests
+    for version in ("1.5", "2.0", "2.2"):
+        for top in (0, 5, 251, 252, 253):
+            for strangers in ([top + 1], [top + 1, top + 2], [254], [255], [254, 255]):
+                ops = [["rx", f"{n};1;0;0;6;child\n"] for n in strangers if n <= 255] + [["rx", "255;255;3;0;3;\n"]] * 3
+                yield {"version": version, "ids": list(range(1, top + 1)), "install": "direct", "ops": ops, "listen_mode": "persistent"}
+    # time passes between requests (seconds to months): an id handed out stays handed out
+    for version in (None, "1.4", "2.2"):
+        for gap in (1, 601, 3601, 86401, 10**7):
+            ops = [["rx", "255;255;3;0;3;\n"], ["tick", gap], ["rx", "255;255;3;0;3;\n"], ["tick", gap], ["rx", "7;255;0;0;17;2.0\n"], ["rx", "255;255;3;0;3;\n"], ["tick", gap], ["rx", "255;255;3;0;3;\n"]]
+            yield {"version": version, "ids": [1], "install": "direct", "ops": ops, "listen_mode": "fresh"}
     for k in (250, 252, 253, 254):
         # nearly full registries without the gateway node 0, filled to the brim by requests
         yield {"version": "2.1", "ids": list(range(1, k + 1)), "install": "direct", "ops": [["rx", "255;255;3;0;3;\n"]] * (256 - k)}
